@@ -184,7 +184,7 @@ func runSubScenario(c *Ctx, nops int) {
 			if closedCtx[ctx] {
 				continue
 			}
-			n := c.R.Pick(1, 2, 3)
+			n := c.R.Pick(0, 1, 2, 3)
 			e.SetOpt(ctx, mangos.OptionReadQLen, fmt.Sprint(n), n)
 		}
 	}
